@@ -52,6 +52,16 @@ fn write_tree(dir: &Path, files: &BTreeMap<String, Vec<u8>>) {
     if files.contains_key("big.md") {
         let _ = std::fs::hard_link(dir.join("big.md"), dir.join("big-hardlink.bak"));
     }
+    // a private note keeps its mode; a note that is a symbolic link stays one
+    if files.contains_key("ends-without-newline.md") {
+        use std::os::unix::fs::PermissionsExt;
+        let _ = std::fs::set_permissions(dir.join("ends-without-newline.md"), std::fs::Permissions::from_mode(0o600));
+    }
+    if files.contains_key("sub dir/crlf note.md") {
+        let _ = std::fs::create_dir_all(dir.join("elsewhere-in-lib"));
+        let _ = std::fs::rename(dir.join("sub dir/crlf note.md"), dir.join("elsewhere-in-lib/real-file.txt"));
+        let _ = std::os::unix::fs::symlink("../elsewhere-in-lib/real-file.txt", dir.join("sub dir/crlf note.md"));
+    }
 }
 
 struct Tree {
@@ -96,6 +106,8 @@ fn gen_tree(rng: &mut Rng, tier: Tier) -> Tree {
     // notes that are in normal form except for their line endings: no newline at the end of the file, CRLF throughout
     // (the file must still end up holding exactly what the export defines)
     texts.insert("ends-without-newline".into(), "# Title\n\ntext without a final newline".into());
+    // a name as long as the file system allows (250 bytes + ".md"): replacing it must not need a longer name
+    texts.insert("l".repeat(250), "# Long\n\n*  item\n".into());
     texts.insert("sub dir/crlf note".into(), "# Title\r\n\r\n- one\r\n- two\r\n".into());
     let expected = export_lib(&texts, "");
     let mut files: BTreeMap<String, Vec<u8>> = BTreeMap::new();
@@ -271,13 +283,28 @@ impl Check for C19 {
             }
         }
         for (path, c) in &base.after {
-            if tree.notes.contains_key(path) {
+            // (the file a symbolic-link note points to is that note's storage)
+            if tree.notes.contains_key(path) || path == "elsewhere-in-lib/real-file.txt" {
                 continue;
             }
             match before.get(path) {
                 None => rep.violate("file-created", "fault-free", format!("{} was created", path), replay.clone()),
                 Some(b) if b != c => rep.violate("non-note-modified", "fault-free", format!("{} was modified", path), replay.clone()),
                 _ => {}
+            }
+        }
+        // identity of the files: a private note stays private, a note behind a symbolic link stays a link
+        {
+            use std::os::unix::fs::PermissionsExt;
+            if let Ok(m) = std::fs::metadata(dir.join("ends-without-newline.md")) {
+                if m.permissions().mode() & 0o777 != 0o600 {
+                    rep.violate("note-mode-changed", "fault-free", format!("a note with mode 0600 has mode {:o} after normalize", m.permissions().mode() & 0o777), replay.clone());
+                }
+            }
+            if let Ok(m) = std::fs::symlink_metadata(dir.join("sub dir/crlf note.md")) {
+                if !m.file_type().is_symlink() {
+                    rep.violate("symlink-replaced", "fault-free", "a note that is a symbolic link is a regular file after normalize (the file it pointed to keeps the old text)".into(), replay.clone());
+                }
             }
         }
         for path in before.keys() {
@@ -303,7 +330,9 @@ impl Check for C19 {
                     let path = path.as_str();
                     let rel = path.trim_start_matches("./");
                     let is_note = tree.notes.keys().any(|n| rel.ends_with(n.as_str()));
-                    let is_tmp_of_note = tree.notes.keys().any(|n| rel.contains(n.trim_end_matches(".md")));
+                    // the temporary file a note is replaced through: next to a note, named after it or ".iwe-tmp-<pid>"
+                    let is_tmp_of_note = tree.notes.keys().any(|n| rel.contains(n.trim_end_matches(".md")))
+                        || rel.rsplit('/').next().map(|f| f.starts_with(".iwe-tmp-")).unwrap_or(false);
                     if !is_note && !is_tmp_of_note && !path.starts_with("/dev/") && !path.starts_with("/proc/") && !path.is_empty() {
                         rep.violate("write-open-outside-notes", "fault-free", format!("write-mode open of {}", path), replay.clone());
                     }
@@ -377,12 +406,13 @@ impl Check for C19 {
             }
             // nothing but notes (and, in killed runs, temporaries next to them) may change
             for (path, c) in &r.after {
-                if tree.notes.contains_key(path) {
+                if tree.notes.contains_key(path) || path == "elsewhere-in-lib/real-file.txt" {
                     continue;
                 }
                 match before.get(path) {
                     None => {
-                        let tmp_ok = tree.notes.keys().any(|n| path.contains(n.trim_end_matches(".md")));
+                        let tmp_ok = tree.notes.keys().any(|n| path.contains(n.trim_end_matches(".md")))
+                            || path.rsplit('/').next().map(|f| f.starts_with(".iwe-tmp-")).unwrap_or(false);
                         if !tmp_ok {
                             rep.violate("file-created", &kind, format!("fault {}: {} was created", name, path), replay.clone());
                         }
